@@ -53,6 +53,10 @@ pub struct Case {
     /// encoding a record: nothing of that may show up in this appender's file
     #[serde(default)]
     pub side_failure_at: Option<u8>,
+    /// the appender is built by the `file` deserializer from a configuration document (path, append, encoder
+    /// pattern) instead of the builder; only with the plain `{m}` encoder
+    #[serde(default)]
+    pub via_config: bool,
 }
 
 struct NestingArg<'a> {
@@ -107,9 +111,9 @@ pub fn strategy() -> impl Strategy<Value = Case> {
         prop::option::weighted(0.5, phase),
         prop::collection::vec(len_strategy(), 0..=3),
         prop::bool::weighted(0.7),
-        (prop::bool::weighted(0.25), prop::option::weighted(0.25, 0u8..8), prop::option::weighted(0.2, 0u8..8), prop::option::weighted(0.2, 0u8..8)),
+        (prop::bool::weighted(0.25), prop::option::weighted(0.25, 0u8..8), prop::option::weighted(0.2, 0u8..8), prop::option::weighted(0.2, 0u8..8), prop::bool::weighted(0.3)),
     )
-        .prop_map(|(pre_kind, pre_len, append_mode, chunks, singles, phase, singles_after, terminated, (twin, panicking_arg_at, nested_at, side_failure_at))| Case { pre_kind, pre_len, append_mode, chunks, singles, phase, singles_after, terminated, twin: twin && append_mode, panicking_arg_at, nested_at, side_failure_at })
+        .prop_map(|(pre_kind, pre_len, append_mode, chunks, singles, phase, singles_after, terminated, (twin, panicking_arg_at, nested_at, side_failure_at, via_config))| Case { pre_kind, pre_len, append_mode, via_config: via_config && chunks.is_none(), chunks, singles, phase, singles_after, terminated, twin: twin && append_mode, panicking_arg_at, nested_at, side_failure_at })
 }
 
 /// Multi-chunk encoder which can park *inside* the appender's critical section.
@@ -189,7 +193,18 @@ fn check_in(dir: &Path, case: &Case, obs: &mut Obs) -> CaseResult {
         None => make_encoder(&None),
         Some(c) => Box::new(ParkEncoder { chunks: c.clone(), about: about.clone(), park: Arc::new(park_set.clone()), parked: parked.clone() }),
     };
-    let app = FileAppender::builder().append(case.append_mode).encoder(encoder).build(&path).map_err(|e| Failure { sig: "C04:build".into(), msg: e.to_string() })?;
+    let app: Box<dyn Append> = if case.via_config && case.chunks.is_none() {
+        // what a configuration file with `kind: file`, `append: ..` and an `encoder:` section produces
+        let mut enc = std::collections::BTreeMap::new();
+        enc.insert(serde_value::Value::String("pattern".into()), serde_value::Value::String("{m}".into()));
+        let mut m = std::collections::BTreeMap::new();
+        m.insert(serde_value::Value::String("path".into()), serde_value::Value::String(path.display().to_string()));
+        m.insert(serde_value::Value::String("append".into()), serde_value::Value::Bool(case.append_mode));
+        m.insert(serde_value::Value::String("encoder".into()), serde_value::Value::Map(enc));
+        log4rs::config::Deserializers::default().deserialize::<dyn Append>("file", serde_value::Value::Map(m)).map_err(|e| Failure { sig: "C04:build".into(), msg: e.to_string() })?
+    } else {
+        Box::new(FileAppender::builder().append(case.append_mode).encoder(encoder).build(&path).map_err(|e| Failure { sig: "C04:build".into(), msg: e.to_string() })?)
+    };
     // open mode: append keeps everything, truncate has discarded it exactly once, at open
     let mut expected: Vec<u8> = if case.append_mode { pre.clone() } else { vec![] };
     let at_open = std::fs::read(&path).unwrap_or_default();
@@ -208,7 +223,7 @@ fn check_in(dir: &Path, case: &Case, obs: &mut Obs) -> CaseResult {
         let text = rec_text(0, *seq, len);
         *seq += 1;
         let through_twin = twin_app.is_some() && *seq % 2 == 0;
-        match catch(|| if through_twin { append_msg(twin_app.as_ref().unwrap(), &text) } else { append_msg(&app, &text) }) {
+        match catch(|| if through_twin { append_msg(twin_app.as_ref().unwrap(), &text) } else { append_msg(&*app, &text) }) {
             Err(p) => return fail("C04:panic", format!("append panicked: {}", p)),
             Ok(Err(e)) => return fail("C04:append-error", format!("append returned an error: {}", e)),
             Ok(Ok(())) => {}
@@ -332,7 +347,7 @@ fn check_in(dir: &Path, case: &Case, obs: &mut Obs) -> CaseResult {
                 std::thread::sleep(Duration::from_micros(50 * stagger as u64));
                 for (s, l) in lens.iter().enumerate() {
                     about.fetch_add(1, Ordering::SeqCst);
-                    append_msg(&*app, &rec_text(ti as u16 + 1, s as u32, *l)).map_err(|e| e.to_string())?;
+                    append_msg(&**app, &rec_text(ti as u16 + 1, s as u32, *l)).map_err(|e| e.to_string())?;
                     published[ti].store(s as u32 + 1, Ordering::SeqCst);
                 }
                 Ok(())
@@ -382,7 +397,7 @@ fn check_in(dir: &Path, case: &Case, obs: &mut Obs) -> CaseResult {
         for len in &case.singles_after {
             let text = rec_text(0, seq, *len);
             seq += 1;
-            append_msg(&app, &text).map_err(|e| Failure { sig: "C04:append-error".into(), msg: e.to_string() })?;
+            append_msg(&*app, &text).map_err(|e| Failure { sig: "C04:append-error".into(), msg: e.to_string() })?;
             expected.extend_from_slice(text.as_bytes());
             let got = std::fs::read(&path).unwrap_or_default();
             ensure!(got == expected, "C04:content", "after the concurrent phase a single append left {} bytes, expected {}", got.len(), expected.len());
@@ -442,8 +457,73 @@ pub fn check_long(tmp: &Path, c: &LongLife, obs: &mut Obs) -> CaseResult {
     r
 }
 
+/// The log "file" is /dev/full: every write the kernel sees fails with ENOSPC. Whatever buffering sits in between, an
+/// append that returns Ok has put its record where a reader finds it - so here no append may return Ok.
+#[derive(Serialize, Deserialize, Debug, Clone)]
+pub struct FullDevice {
+    pub lens: Vec<usize>,
+    pub append_mode: bool,
+    pub rolling: bool,
+}
+
+pub fn full_strategy() -> impl Strategy<Value = FullDevice> {
+    (prop::collection::vec(prop_oneof![0usize..40, 900usize..1200, 3000usize..3100], 1..=6), prop::bool::ANY, prop::bool::ANY).prop_map(|(lens, append_mode, rolling)| FullDevice { lens, append_mode, rolling })
+}
+
+pub fn check_full(tmp: &Path, c: &FullDevice, obs: &mut Obs) -> CaseResult {
+    let dev = Path::new("/dev/full");
+    if !dev.exists() {
+        obs.class("no-/dev/full(skipped)");
+        return Ok(());
+    }
+    let dir = scratch(tmp, "c04f");
+    let app: Box<dyn Append> = if c.rolling {
+        let policy = make_policy(&dir, &TrigSpec::Size(1 << 40), &RollSpec::Delete).unwrap();
+        match build_appender(dev, c.append_mode, &None, policy) {
+            Ok(a) => Box::new(a),
+            Err(_) => {
+                let _ = std::fs::remove_dir_all(&dir);
+                obs.class("open-refused(fine)");
+                return Ok(());
+            }
+        }
+    } else {
+        match FileAppender::builder().append(c.append_mode).encoder(make_encoder(&None)).build(dev) {
+            Ok(a) => Box::new(a),
+            Err(_) => {
+                let _ = std::fs::remove_dir_all(&dir);
+                obs.class("open-refused(fine)");
+                return Ok(());
+            }
+        }
+    };
+    let mut r = Ok(());
+    for (i, len) in c.lens.iter().enumerate() {
+        match catch(|| append_msg(&*app, &record_text(0, i as u32, *len))) {
+            Err(p) => {
+                r = fail("C04:panic", format!("append to a full device panicked: {}", p));
+                break;
+            }
+            Ok(Ok(())) => {
+                r = fail("C04:error-swallowed", format!("append #{} ({} bytes) to {} on /dev/full returned Ok: the record cannot have been stored (every write fails with ENOSPC), so the failure of the flush was swallowed", i, record_size(*len), if c.rolling { "a rolling file appender" } else { "a file appender" }));
+                break;
+            }
+            Ok(Err(_)) => {}
+        }
+        obs.sub_evals += 1;
+    }
+    let _ = std::fs::remove_dir_all(&dir);
+    obs.nontrivial = true;
+    obs.class(if c.rolling { "full-device:rolling_file" } else { "full-device:file" });
+    r
+}
+
 pub fn run(run: &Run) {
     let tmp = run.tmp.clone();
+    let t9 = tmp.clone();
+    let full = move |c: &FullDevice, o: &mut Obs| check_full(&t9, c, o);
+    run.run_replays::<FullDevice>("full-device", &full);
+    run.search("full-device", run.tier.pick(20, 500), full_strategy(), &full);
     if run.worker.0 == 1 % run.worker.1 {
         let t = tmp.clone();
         run.eval_one("long-life", &LongLife { records: 70_000, len: 6 }, &move |c: &LongLife, o: &mut Obs| check_long(&t, c, o));
@@ -462,6 +542,13 @@ pub fn replay(part: &str, case: serde_json::Value) -> Option<CaseResult> {
             let _ = std::fs::remove_dir_all(&tmp);
             Some(r)
         }
+        "full-device" => {
+            let tmp = std::env::temp_dir().join(format!("lv-replay-{}", std::process::id()));
+            std::fs::create_dir_all(&tmp).ok()?;
+            let r = check_full(&tmp, &serde_json::from_value(case).ok()?, &mut Obs::default());
+            let _ = std::fs::remove_dir_all(&tmp);
+            Some(r)
+        }
         "long-life" => {
             let tmp = std::env::temp_dir().join(format!("lv-replay-{}", std::process::id()));
             std::fs::create_dir_all(&tmp).ok()?;
@@ -476,7 +563,7 @@ pub fn replay(part: &str, case: serde_json::Value) -> Option<CaseResult> {
 pub fn meta() -> EvidenceMeta {
     EvidenceMeta {
         level: "exploration",
-        rule: "cases = pre-existing content (none / random bytes / earlier records, 0-1100 bytes) x append or truncate mode x encoder (pattern {m} or a multi-chunk harness encoder writing each record in 1-N write calls crossing the 1 KiB buffer) x 0-8 single-threaded appends (payload 0-3 KiB, sizes around 1023/1024/1025/2048/3073) checked through a fresh file handle after every call x an optional concurrent phase of 2-8 threads x 1-30 records with generated start stagger, during which designated records park INSIDE the appender's critical section (between two chunks) until another thread announces it is about to append, while a reader thread samples the file and checks that every record a writer has finished is visible, x appends after the phase; oracle: file == pre-existing (append) or empty (truncate, checked right after build) ++ concatenation of all acknowledged records; after joining: the tail parses into whole uncorrupted records, multiset equals the acknowledged records, per-thread order kept. Part long-life: 70 000 short records through one open appender, size checked after every append, content every 4099th. Optional events before a single append: an append that unwinds (panicking Display argument), an append whose argument logs through another file appender (both records must land), another file appender failing in the middle of a record (nothing of it may appear here); record sizes include the neighbourhood of 8/16/64 KiB. non-trivial = a record > 1 KiB and (a record parked inside the critical section, or non-empty pre-existing content in append mode)".into(),
+        rule: "cases = pre-existing content (none / random bytes / earlier records, 0-1100 bytes) x append or truncate mode x encoder (pattern {m} or a multi-chunk harness encoder writing each record in 1-N write calls crossing the 1 KiB buffer) x 0-8 single-threaded appends (payload 0-3 KiB, sizes around 1023/1024/1025/2048/3073) checked through a fresh file handle after every call x an optional concurrent phase of 2-8 threads x 1-30 records with generated start stagger, during which designated records park INSIDE the appender's critical section (between two chunks) until another thread announces it is about to append, while a reader thread samples the file and checks that every record a writer has finished is visible, x appends after the phase; oracle: file == pre-existing (append) or empty (truncate, checked right after build) ++ concatenation of all acknowledged records; after joining: the tail parses into whole uncorrupted records, multiset equals the acknowledged records, per-thread order kept. Part full-device: file and rolling file appenders on /dev/full (every write fails with ENOSPC): no append may return Ok. The appender may be built by the file deserializer (path, append, encoder pattern) instead of the builder. Part long-life: 70 000 short records through one open appender, size checked after every append, content every 4099th. Optional events before a single append: an append that unwinds (panicking Display argument), an append whose argument logs through another file appender (both records must land), another file appender failing in the middle of a record (nothing of it may appear here); record sizes include the neighbourhood of 8/16/64 KiB. non-trivial = a record > 1 KiB and (a record parked inside the critical section, or non-empty pre-existing content in append mode)".into(),
         assumptions: vec!["OS scheduler not controlled: interleavings are amplified (parking inside the critical section, stagger, volume), a failing case replays with the same pressure but not the same OS interleaving".into()],
         mutants_caught: vec![],
     }
